@@ -72,6 +72,7 @@ pub fn run_one(run: u64, seed: u64) -> RunOut {
         let alloc_a = client_a.port_allocator();
         let alloc_b = client_b.port_allocator();
         let mut objs: Vec<(char, Obj)> = Vec::new();
+        let mut late: Option<(chmux::Connect, chmux::Request)> = None;
 
         // open pairs: first via client, further ones partly as ports sent over the first pair
         let mut first_pair: Option<(chmux::Sender, chmux::Receiver, chmux::Sender, chmux::Receiver)> = None;
@@ -131,11 +132,18 @@ pub fn run_one(run: u64, seed: u64) -> RunOut {
         if leave_pending_connect {
             if let Some(p) = alloc_a.try_allocate() {
                 if let Some(Ok(c)) = or_quiescent(client_a.connect_ext(Some(PortReq::new(p)), rng.chance(50))).await {
-                    objs.push(('A', Obj::Connect(c)));
+                    let mut c = Some(c);
                     if rng.chance(50) {
                         if let Some(Ok(Some(r))) = or_quiescent(listener_b.inspect()).await {
-                            objs.push(('B', Obj::Request(r)));
+                            if !pressure && rng.chance(40) {
+                                late = Some((c.take().unwrap(), r));
+                            } else {
+                                objs.push(('B', Obj::Request(r)));
+                            }
                         }
+                    }
+                    if let Some(c) = c {
+                        objs.push(('A', Obj::Connect(c)));
                     }
                 }
             }
@@ -251,6 +259,35 @@ pub fn run_one(run: u64, seed: u64) -> RunOut {
             net.set_starved(d, false);
         }
         settle().await;
+
+        // a request that the listening side took out of the queue but has not answered keeps the connection
+        // alive: accepted after everything else is gone it must still yield a working port
+        if let Some((c, r)) = late.take() {
+            drop_order.push("B:late-accept".into());
+            let acc = crate::sched::spawn(r.accept());
+            let (cr, ar) = (or_quiescent(c).await, or_quiescent(acc).await);
+            match (cr, ar) {
+                (Some(Ok(pa)), Some(Ok(Ok(pb)))) => {
+                    out.count("late_accepts_ok", 1);
+                    drop((pa, pb));
+                }
+                (cr, ar) => {
+                    let mut rp = replay.clone();
+                    rp["drop_order"] = json!(drop_order);
+                    rp["trace_tail"] = net.trace_json(30);
+                    out.viol(
+                        "C07:kept-request-refused",
+                        format!(
+                            "a request that the listening side had taken out of the queue (unanswered) was accepted after every other handle of both endpoints had been dropped: connect gives {:?}, accept gives {:?}",
+                            cr.map(|r| r.map(|_| ()).map_err(|e| e.to_string())),
+                            ar.map(|r| r.map(|r| r.map(|_| ()).map_err(|e| e.to_string())).map_err(|e| e.to_string()))
+                        ),
+                        rp,
+                    );
+                }
+            }
+            settle().await;
+        }
 
         let mut rp = replay.clone();
         rp["drop_order"] = json!(drop_order);
